@@ -134,6 +134,9 @@ fn run_history(out: &mut dyn Write, line: &str) {
     evlog::reset();
     evlog::enable(true);
     evlog::log(evlog::RUN_BEGIN, 0, 0, 0);
+    for s in STARTED.iter() {
+        s.store(0, SeqCst);
+    }
 
     let callers = (c.u64("callers", 1) as usize).max(1);
     let concurrent = c.u64("cmode", 0) != 0;
@@ -141,6 +144,9 @@ fn run_history(out: &mut dyn Write, line: &str) {
     // The caller's own call (index 0) panics with a payload whose destructor panics as well: the
     // broadcast then leaves by unwinding, which must still happen only after every call is over.
     let bomb = c.u64("bomb", 0) != 0;
+    // A pooled call (index >= 1) panics with such a payload: the pool cannot drop it without a second panic on the worker. It may
+    // end the process there (divan aborts by design); if the process goes on, the pool must still be whole for the next broadcasts.
+    let wbomb = c.u64("wbomb", 0) != 0;
     // The closure handed to the pool owns over-aligned state (a u128 and a cache-padded block).
     let oalign = c.u64("oalign", 0) != 0;
     // An idle gap before broadcast `gapat`: pooled threads must survive it and be reused.
@@ -249,6 +255,17 @@ fn run_history(out: &mut dyn Write, line: &str) {
                             delay(3, damount)
                         }
                     }
+                    5 => {
+                        // every pooled call waits until all pooled calls of this broadcast have begun, then a little longer
+                        if index != 0 {
+                            STARTED[b % 64].fetch_add(1, SeqCst);
+                            let t0 = std::time::Instant::now();
+                            while (STARTED[b % 64].load(SeqCst) as usize) < n && t0.elapsed().as_secs() < 20 {
+                                std::thread::yield_now();
+                            }
+                            delay(3, damount)
+                        }
+                    }
                     _ => {}
                 }
                 // plain write, read back by the caller after the broadcast returned
@@ -260,7 +277,10 @@ fn run_history(out: &mut dyn Write, line: &str) {
                 let do_panic = panics_ref.iter().any(|&(pb, pi)| pb == b && pi == index);
                 evlog::log(evlog::TASK_END, b as u64, index as u64, do_panic as u64);
                 if do_panic {
-                    if bomb && index == 0 {
+                    if (bomb && index == 0) || (wbomb && index != 0) {
+                        if wbomb {
+                            eprintln!("WBOMB b={b} index={index}");
+                        }
                         std::panic::panic_any(Bomb);
                     }
                     panic!("injected task panic b={b} index={index}");
@@ -296,7 +316,7 @@ fn run_history(out: &mut dyn Write, line: &str) {
                     results.push(Some(7)); // pre-existing element must be kept
                 }
                 let pre = results.len();
-                let unwound = if oalign { do_par_extend(&pool, results, n, bomb, task_oa) } else { do_par_extend(&pool, results, n, bomb, task) };
+                let unwound = if oalign { do_par_extend(&pool, results, n, bomb || wbomb, task_oa) } else { do_par_extend(&pool, results, n, bomb || wbomb, task) };
                 evlog::log(evlog::BCAST_RETURN, b as u64, n as u64, unwound as u64);
                 let shown: Vec<String> = results[pre..]
                     .iter()
@@ -323,7 +343,7 @@ fn run_history(out: &mut dyn Write, line: &str) {
                 }
                 pe_lines.lock().unwrap().push(format!("PE {} {}", b, shown.join(",")));
             } else {
-                let unwound = if oalign { do_broadcast(&pool, n, bomb, task_oa) } else { do_broadcast(&pool, n, bomb, task) };
+                let unwound = if oalign { do_broadcast(&pool, n, bomb || wbomb, task_oa) } else { do_broadcast(&pool, n, bomb || wbomb, task) };
                 evlog::log(evlog::BCAST_RETURN, b as u64, n as u64, unwound as u64);
             }
             // Everything the calls wrote must be visible now.
@@ -485,6 +505,8 @@ struct Padded {
 }
 
 /// Panic payload whose destructor panics (unless the thread is already unwinding).
+static STARTED: [AtomicU64; 64] = [const { AtomicU64::new(0) }; 64];
+
 struct Bomb;
 
 impl Drop for Bomb {
